@@ -5,7 +5,7 @@ from .gen_html import Writer
 SELECTORS = ['a', '.b > c', 'a:hover', '&:not(.x)', '@media (min-width: 100px)', 'a[href="{"]', 'x::before', 'd', 'ul li', '#id.cls',
              '@supports (display: grid) and (not (display: inline-grid))', 'a[title="}"]', "b[data-x='a;b']", '.a,\n.b',
              '@media screen and (max-width:100px)', '&-suffix', 'h1 + h2', '*', 'a:hover:focus', 'li:nth-child(2n+1)', '@font-face',
-             'a /* c */ b', '.x::after', '@include mq($from: mobile)',
+             'a /* c */ b', '.x::after', '@include mq($from: mobile)', '@media (min-width:/* { */ 100px)', '@include m($a:/* ; */1)',
              # selectors that BEGIN with a colon (the rule starts at the colon)
              ':root', '::selection', ':hover', '::-webkit-scrollbar', ':not(.a):focus', ':is(a, b) c', '::before']
 NAMES = ['color', '--x', '$v', 'margin-left', 'background', '@w', 'font', '*zoom', '_height', 'filter', 'grid-area']
@@ -19,7 +19,7 @@ VALUES = [['red'], ['1px', 'solid', '#000'], ['"a;b}"'], ["'x\\'y'"], ['calc(1px
           ['(small: (min: 0, max: 599px), large: 600px)'], ['(bg: darken($c, 10%), border: $c)'], ['f(g(a:b), c:d)'], ['((a:b):c)'], ['map-get((k: (x: 1)), k)', 'x:y'.replace(':', '-')], ['1px', '2px', '3px', '4px', '5em', '6%', 'auto', 'inherit', '0'], ['a', 'b', 'c', '/', 'd', 'e', 'f', 'g']]
 # a colon OUTSIDE parentheses and strings inside a value (custom properties, the legacy `progid:` filters): the FIRST colon of a declaration delimits
 VALUES += [['a:b'], ['progid:DXImageTransform.Microsoft.gradient(startColorstr=#80000000)'], ['c', 'd:e', 'f'], ['1:2:3'], ['x', ':', 'y']]
-VALUES_WITH_COMMENT = [['x', '/* v */', 'y'], ['1px', '/* ; } */', 'solid']]
+VALUES_WITH_COMMENT = [['x', '/* v */', 'y'], ['1px', '/* ; } */', 'solid'], ['f(a:/* ; } */b)'], ['(k:/* { */ v)', 'w']]
 SEMI_IN_PAREN = [['url(data:image/png;base64,aaa)'], ['url(data:x;y)', 'no-repeat'], ['f(a;b)']]
 COMMENTS = ['/* a:b; } */', '/* { */', '/**/', '/* x */', '/* ; */', '/*\n * multi\n */']
 WS = [' ', '\n  ', '', '\n', '\t', '  ']
@@ -38,6 +38,9 @@ def gen_decl(rng, w, recs, parent, semi_in_paren=False, allow_nosemi=False, last
         toks = rng.choice(VALUES_WITH_COMMENT)      # C10 only (C17 asks for value tokens, which comments blur)
     else:
         toks = rng.choice(VALUES)
+    lead = toks and not semi_in_paren and not allow_nosemi and rng.random() < 0.06
+    if lead:
+        w.add(rng.choice(['/* lead */ ', '/* ; } */', '/* a:b */\n  ']))      # a comment before the value is not part of it (C10 only, like the values with comments)
     vs = w.pos
     tr = []
     for j, t in enumerate(toks):
@@ -45,6 +48,8 @@ def gen_decl(rng, w, recs, parent, semi_in_paren=False, allow_nosemi=False, last
             w.add(' ')
         tr.append(w.add(t))
     ve = w.pos
+    if lead and rng.random() < 0.5:
+        w.add(rng.choice([' /* trail */', '/* ; */ ']))       # ... nor is a comment after it
     if not toks:
         vs = ve = None       # empty value: any empty range between colon and semicolon is accepted
     nosemi = allow_nosemi and last and bool(toks) and rng.random() < 0.5
